@@ -39,6 +39,11 @@ type Fault struct {
 	Partial int
 }
 
+// READ-SIDE opens (Open, OpenFile without write flags, ReadFile) are also
+// shown to the FaultFunc, as Op{Kind: "open-read"} with Op.Index = index of
+// the last mutating operation; they are not recorded, not counted and no stop
+// points. A FaultFunc that only wants mutating calls ignores that kind.
+//
 // FaultFunc decides, per mutating operation (op.Phase is always "before"),
 // whether it fails. nil = perform the operation normally.
 type FaultFunc func(op Op) *Fault
